@@ -156,7 +156,16 @@ def bar(
 @check_ndim(2)
 def map(h2: Histogram2D, **kwargs) -> go.Figure:
     """Heatmap."""
-    data = [go.Heatmap(z=h2.frequencies, **kwargs)]
+    # One cell per bin at the bin's position: plotly reads z[row (y)][column (x)]
+    # and takes n + 1 coordinates as cell edges, n coordinates as cell centres.
+    for key, axis in (("x", 0), ("y", 1)):
+        if key not in kwargs:
+            binning = h2.binnings[axis]
+            if binning.is_consecutive():
+                kwargs[key] = binning.numpy_bins
+            else:
+                kwargs[key] = h2.get_bin_centers(axis)
+    data = [go.Heatmap(z=h2.frequencies.T, **kwargs)]
     layout = go.Layout()
     figure = go.Figure(data=data, layout=layout)
     return figure
